@@ -259,6 +259,33 @@ def sched_second_step_refused(h, d, layout):
     return out
 
 
+def sched_refused_by_writer(h, d, layout):
+    """a real SQLite writer rests in PENDING (its COMMIT is waiting for a third connection's SHARED lock) or EXCLUSIVE: the
+    reader's request is refused at the first step -- whatever it took before giving up must be released again, and when
+    the readers are gone the writer commits"""
+    from checks import c07
+    out = []
+    for state in ("PENDING", "EXCLUSIVE"):
+        for opn in ("select", "indexed_select", "select_rowid"):
+            r = lockrun.Runner(h, fresh(d, "wref-%s-%s" % (state, opn)), layout)
+            try:
+                r.open("h1")
+                r.start("h1", SEL_META)
+                r.finish("h1")
+                c07.park_writer(r, state, False)
+                for _ in range(2):
+                    r.start("h1", OPS[opn])
+                    r.finish("h1")
+                c07.release_writer(r, state)
+                r.start("h1", SEL_META)
+                r.finish("h1")
+                r.close("h1")
+            finally:
+                r.shutdown()
+            out.append(("writerrefuses:%s:%s" % (state, opn), r.events, {"op": opn, "variant": "refused by a writer in " + state}))
+    return out
+
+
 def sched_growth(h, d, layout):
     """the file grows (another connection commits) after the handle was opened; a later scan reads pages beyond the
     size at open: the lock must be held at every one of those reads too"""
@@ -327,7 +354,7 @@ def run(tier):
     n = 12 if tier == "quick" else 60
     scheds = sched_exit_paths(h, d, "sep") + sched_writer_vs_parked_reader(h, d, "sep", rnd, n) + \
         sched_two_handles(h, d, "sep", rnd, 5 if tier == "quick" else 20) + sched_growth(h, d, "sep") + \
-        sched_nested(h, d, "sep") + sched_error_at_lock(h, d, "sep") + sched_second_step_refused(h, d, "sep")
+        sched_nested(h, d, "sep") + sched_error_at_lock(h, d, "sep") + sched_second_step_refused(h, d, "sep") + sched_refused_by_writer(h, d, "sep")
     errs_seen = [m["errors"] for name, _, m in scheds if "errors" in m]
     v.cov["error_at_lock_outcomes"] = errs_seen
     if not any(e[0] for e in errs_seen):
